@@ -156,6 +156,7 @@ class Callee:
         else:
             segs = [x for x in split_path(raw)]
             segs = [strip_generics_seg(x) for x in segs if not (x.startswith("<") and not _prim_impl(x))]
+            segs = ["<impl [T]>" if x.startswith("<impl [") else x for x in segs]
             self.kind = "p"
             self.segs = segs
             self.selft = segs[-2] if len(segs) >= 2 else None
@@ -202,6 +203,7 @@ class Program:
         self.enums = dict(BUILTIN_ENUMS)
         self.struct_fields = {}
         self._adt_cache = {}
+        self._clo_arity = {}
         self._index_enums()
         self._index_defs()
 
@@ -294,6 +296,38 @@ class Program:
                     vs = _parse_variants(body)
                     if vs:
                         self.enums.setdefault(m.group(1), vs)
+
+    def closure_arity(self, cname):
+        """(number of captured fields, {index: type text}) that the body of closure `cname` accesses, or None."""
+        r = self._clo_arity.get(cname, 0)
+        if r != 0:
+            return r
+        fname = self.closures.get(cname)
+        r = None
+        if fname:
+            fn = self.funcs[fname]
+            txt = "\n".join(fn._lines)
+            idx = {}
+            for m in re.finditer(r"\((?:\(\*_1\)|_1)\.(\d+): ", txt):
+                k = int(m.group(1))
+                # type text up to the matching ')'
+                start = m.end()
+                depth = 1
+                j = start
+                while j < len(txt) and depth:
+                    if txt[j] in "(<[{":
+                        depth += 1
+                    elif txt[j] in ")>]}":
+                        if txt[j] == ">" and txt[j - 1] in "-=":
+                            pass
+                        else:
+                            depth -= 1
+                    j += 1
+                idx.setdefault(k, txt[start:j - 1])
+            if idx:
+                r = (max(idx) + 1, idx)
+        self._clo_arity[cname] = r
+        return r
 
     # -- lookups
     def find_def(self, selft, trait, method):
@@ -801,6 +835,21 @@ class Interp:
             if kind == "array":
                 return Agg("array", vals)
             if kind == "closure":
+                need = self.P.closure_arity(name)
+                if need is not None and len(vals) < need[0] and ops and ops[0][0] in ("move", "copy") and not ops[0][1].proj:
+                    # rustc's MIR pretty-printer zips the capture operands with the captured *variables*, so a closure that
+                    # captures several disjoint fields of one variable (edition 2021) is printed with its first operand
+                    # only.  The operands are built by the statements just before the aggregate into consecutively
+                    # numbered temporaries: recover them, checking each against the field type the closure body expects.
+                    first = ops[0][1].local
+                    for kf in range(len(vals), need[0]):
+                        loc = first + kf
+                        cellv = frame.locals.get(loc)
+                        want = need[1].get(kf)
+                        have = frame.fn.local_types.get(loc)
+                        if cellv is None or cellv.val is MOVED or (want and have and _norm_ty(want) != _norm_ty(have)):
+                            raise Unsupported(f"cannot recover capture {kf} of {name} (local _{loc}: {have} vs {want})")
+                        vals.append(cellv.val)
                 return Agg(name, vals, meta=names)
             tn, var = self.adt_name(name)
             if var is not None and not vals and not self.P.enums.get(tn, {}).get(var) is None and _fieldless(self.P.enums.get(tn)):
@@ -1217,6 +1266,10 @@ class Interp:
         if otherwise is None:
             raise PathAbort("no switch target")
         return otherwise
+
+
+def _norm_ty(t):
+    return re.sub(r"'(?:\w+|\{erased\})\s*", "", t).replace(" ", "")
 
 
 def _conc_binop(op, a, b):
